@@ -108,7 +108,15 @@ pub async fn add_node(
     let mut added_service_data = vec![];
     let mut failed_service_data = vec![];
 
-    let current_node_count = node_registry.nodes.len() as u16;
+    // Number new services after the highest number in use, not after the number of entries: a
+    // partially failed `add` leaves gaps, and counting entries would hand out an existing name
+    // (and with it an existing data directory) again.
+    let current_node_count = node_registry
+        .nodes
+        .iter()
+        .map(|node| node.number)
+        .max()
+        .unwrap_or(0);
     let target_node_count = current_node_count + options.count.unwrap_or(1);
 
     let mut node_number = current_node_count + 1;
